@@ -42,7 +42,8 @@ type Track struct {
 	If func(c Cond, ifi *ssa.If) (matched bool, onTrue int)
 	// Ev classifies an instruction as the tracked event.
 	Ev func(in ssa.Instruction) bool
-	// Kills lists tracks reset to Unseen when this track's event fires.
+	// Kills lists tracks reset to Unseen when this track's event fires or
+	// its branch condition is evaluated (before the track's own update).
 	Kills []string
 }
 
@@ -65,6 +66,9 @@ type Automaton struct {
 	// StartAfter, when set, starts the exploration right after this
 	// instruction instead of at function entry.
 	StartAfter ssa.Instruction
+	// StartBlock, when set (and StartAfter is nil), starts at the beginning of
+	// this block instead of the entry block.
+	StartBlock *ssa.BasicBlock
 	// StopAt ends a path (after recording the state) at matching instructions.
 	StopAt func(in ssa.Instruction) bool
 	// Init is the initial product state.
@@ -156,6 +160,9 @@ func (a *Automaton) Run() *Result {
 			}
 		}
 	}
+	if a.StartAfter == nil && a.StartBlock != nil {
+		startBlock = a.StartBlock.Index
+	}
 	seen := map[nodeKey]bool{}
 	process := func(k nodeKey, from int) {
 		r.Visited++
@@ -191,6 +198,11 @@ func (a *Automaton) Run() *Result {
 						continue
 					}
 					ns := st
+					for _, ti := range ic.matches {
+						for _, kj := range kills[ti] {
+							ns = ns.set(kj, Unseen)
+						}
+					}
 					for j, ti := range ic.matches {
 						v := ic.onTrue[j]
 						if e == 1 {
